@@ -279,6 +279,11 @@ Definition stringify (p : pline) (lead lnum : bool) (cks : option bool) (comment
 
 Definition command_string (p : pline) : string := stringify p true true (Some false) false false.
 
+(** ExcludeRegionPlugin._splitGcodeScript: the non-empty normalised lines of a script setting (no leading blanks, line
+    numbers, checksums, comments, line ends) *)
+Definition split_script (s : string) : list string :=
+  filter (fun t => negb (String.eqb t "")) (map (fun p => stringify p false false None false false) (parse_lines s)).
+
 (** parser.text: group 2 without the raw checksum *)
 Definition text_of (p : pline) : string :=
   match g_cks p with
